@@ -107,6 +107,7 @@ class C09(Prop):
     # K2 on the stage-1 slice (transition matrices, class-change matrices): class, priority and destination of every customer and record
     k2_mask = {('ind', 'cls'), ('ind', 'pcls'), ('ind', 'prio'), ('ind', 'dest'), ('ind', 'node'), ('rec', 'cls'), ('rec', 'ocls'), ('rec', 'dest'), ('rec', 'node'), ('rec', '*'), ('ind', '*')}
     k2_frames = 40
+    k2_invs2 = {'prio', 'rows2'}         # the stage-2 T2 invariants (Inv/AllRun2.invs2_b) this property answers for on real snapshots
     k2_invs = {'rows'}          # the T2 hypothesis (Route.rows_ok) this property answers for on real configurations
     regions = {'quick': [('routers', 320), ('core', 80), ('block', 40), ('renege', 40), ('preempt', 40), ('prio_reroute', 30), ('jsq_preempt', 80), ('renege_jockey', 40),
                          ('sched_reroute', 20), ('dyn', 30), ('all', 80)]}
